@@ -6,7 +6,7 @@ LEVEL = 'model_checking'
 PID = 'C04'
 FAMILY = 'seq'
 PROPS = ['P_C04']
-BASE = [{'role': 'acc', 'bs': 42, 'chunk': 0, 'maxIn': 5, 'maxOut': 3}, {'role': 'acc', 'bs': 42, 'chunk': 1, 'maxIn': 5, 'maxOut': 4}, {'role': 'init', 'bs': 41, 'chunk': 2, 'maxIn': 5, 'maxOut': 3}]
+BASE = [{'role': 'acc', 'bs': 42, 'chunk': 0, 'maxIn': 6, 'maxOut': 3}, {'role': 'acc', 'bs': 42, 'chunk': 1, 'maxIn': 5, 'maxOut': 4}, {'role': 'init', 'bs': 41, 'chunk': 2, 'maxIn': 5, 'maxOut': 3}]
 ALT = [{'role': 'init', 'bs': 44, 'chunk': 1}, {'role': 'acc', 'bs': 40, 'chunk': 2}, {'role': 'acc', 'bs': 44, 'chunk': 3}, {'role': 'init', 'bs': 50, 'chunk': 0}, {'role': 'init', 'bs': 42, 'chunk': 3}, {'role': 'acc', 'bs': 41, 'chunk': 1}]
 
 
